@@ -5,13 +5,19 @@ MUT=${MUTREPO:-/root/work/mutrepo}
 [ -d "$MUT" ] || git -C /repo worktree add -q --detach "$MUT" HEAD
 git -C "$MUT" checkout -q --detach "$(git -C /repo rev-parse HEAD)"
 git -C "$MUT" checkout -q -- .
-declare -A MAP=( [ade1d61]="C20 C14" [81aa2c4]="C13" [f10aca0]="C02 C01" [25f155d]="C01 C02" [8f70340]="C17" [f6b31c7]="C07" [1ceef1e]="C07" [264b238]="C08" [1e4a5d3]="C10 C11" [de62d31]="C05" [610e605]="C05" [2dc35f3]="C04" [e7ca3ce]="C16" [1462441]="C17" [7886526]="C10 C16" [71016ec]="C02" [f7c79e5]="C05" )
+declare -A MAP=( [ade1d61]="C20 C14" [81aa2c4]="C13" [f10aca0]="C02 C01" [25f155d]="C01 C02" [8f70340]="C17" [f6b31c7]="C07" [1ceef1e]="C07" [264b238]="C08" [1e4a5d3]="C10 C11" [de62d31]="C05" [610e605]="C05" [2dc35f3]="C04" [e7ca3ce]="C16" [1462441]="C17" [7886526]="C10 C16" [71016ec]="C02" [f7c79e5]="C05" [7886526+f9ef398]="C10 C16" )
+# a key `A+B` reverts A, then B (newest first): f9ef398 (first step of the D37 repair) cannot be reverted alone since 7886526 rewrote its lines;
+# reverting both gives the unrepaired Bar.copy
 for c in "${!MAP[@]}"; do
-  git -C /repo diff $c~1 $c | git -C "$MUT" apply -R || { echo "cannot revert $c"; git -C "$MUT" checkout -q -- .; continue; }
+  ok=1
+  for one in ${c//+/ }; do
+    git -C /repo diff $one~1 $one | git -C "$MUT" apply -R || { ok=0; break; }
+  done
+  [ $ok = 1 ] || { echo "cannot revert $c"; git -C "$MUT" checkout -q -- .; continue; }
   for p in ${MAP[$c]}; do
-    out=$(cd /verif && SCODA_REPO="$MUT" ./check $p ${SELFTEST_ARGS:-} 2>&1 | grep -E "^VIOLATION" | head -1)
+    out=$(cd ${VERIF_ROOT:-/verif} && SCODA_REPO="$MUT" ./check $p ${SELFTEST_ARGS:-} 2>&1 | grep -E "^VIOLATION" | head -1)
     echo "$c $p -> ${out:-MISSED}"
   done
   git -C "$MUT" checkout -q -- .
 done
-( cd /verif && /venv/bin/python tools/gen_lean.py > /dev/null 2>&1 )     # generated files back to /repo's source
+( cd ${VERIF_ROOT:-/verif} && /venv/bin/python tools/gen_lean.py > /dev/null 2>&1 )     # generated files back to /repo's source
